@@ -216,17 +216,18 @@ Definition tx_status (ps : pstate) : status * pstate :=
   if is_ty (ctype ps) TStatus then parse_status ps else (StNone, ps).
 Definition tx_code (ps : pstate) : list N * pstate :=
   if is_ty (ctype ps) TCode then (tk_val (cur ps), adv ps) else ([], ps).
-Definition tx_desc (ps : pstate) : (list N * list N * list N) * pstate :=
+Definition tx_desc (ps : pstate) : (list N * list N * list N * rng) * pstate :=
   if is_ty (ctype ps) TText then
     let d0 := tk_val (cur ps) in
+    let prng := text_range (tk_pos (cur ps)) d0 in
     let ps := adv ps in
     if is_ty (ctype ps) TPipe then
       let payee := trim_space_u d0 in
       let ps := adv ps in
       let '(note, ps) := if is_ty (ctype ps) TText then (trim_space_u (tk_val (cur ps)), adv ps) else ([], ps) in
-      (((match note with [] => payee | _ => payee ++ sep_note ++ note end), payee, note), ps)
-    else ((d0, [], []), ps)
-  else (([], [], []), ps).
+      (((match note with [] => payee | _ => payee ++ sep_note ++ note end), payee, note, prng), ps)
+    else ((d0, [], [], prng), ps)
+  else (([], [], [], rng0), ps).
 Definition tx_cmts (ps : pstate) : list comment * pstate :=
   if is_ty (ctype ps) TComment then let '(c, ps) := parse_comment ps in ([c], ps) else ([], ps).
 Definition tx_nl (ps : pstate) : pstate := if is_ty (ctype ps) TNewline then adv ps else ps.
@@ -260,7 +261,7 @@ Definition tx_rest (fuel : nat) (start : pos) (d : date) (ps : pstate) : option 
   match parse_postings fuel (tx_nl ps) [] with
   | None => None
   | Some (posts, ps) =>
-      Some (Some (mkTx d d2 st code (fst (fst dpn)) (snd (fst dpn)) (snd dpn) posts [] cmts (mkRng start (zpos (tk_pos (cur ps))))), ps)
+      Some (Some (mkTx d d2 st code (fst (fst (fst dpn))) (snd (fst (fst dpn))) (snd (fst dpn)) (snd dpn) posts [] cmts (mkRng start (zpos (tk_pos (cur ps))))), ps)
   end.
 
 Lemma tx_rest_c fuel start d : commutes_opt (tx_rest fuel start d).
